@@ -331,7 +331,35 @@ Proof.
   - simpl In. rewrite IH. lia.
 Qed.
 
-(* the statement of C08 about one task of an observed schedule *)
+(* a free leaf that reserved nothing (no work left) *)
+Definition c08_norows (cfg : config) (rows : list obs_row) (r : nat) (s e : Z) : Prop :=
+  let d1 := day_of s in
+  0 < cap cfg r d1 /\ e = Z.max s (pbound cfg)
+  /\ if balance cfg then
+       s <= DAY * d1 + frac (obooked rows r d1) (cap cfg r d1)
+       /\ exists n, (n <= length rows)%nat
+            /\ s = DAY * d1 + frac (obooked (firstn n rows) r d1) (cap cfg r d1)
+     else s = DAY * d1.
+
+Lemma c08_norows_b cfg rows r s e :
+  (0 <? cap cfg r (day_of s)) && (e =? Z.max s (pbound cfg))
+  && (if balance cfg then
+        (s <=? DAY * day_of s + frac (obooked rows r (day_of s)) (cap cfg r (day_of s)))
+        && existsb (fun n => s =? DAY * day_of s + frac (obooked (firstn n rows) r (day_of s)) (cap cfg r (day_of s)))
+                   (seq 0 (S (length rows)))
+      else s =? DAY * day_of s) = true
+  <-> c08_norows cfg rows r s e.
+Proof.
+  unfold c08_norows. cbv zeta. rewrite !andb_true_iff, Z.ltb_lt, Z.eqb_eq.
+  destruct (balance cfg).
+  - rewrite andb_true_iff, Z.leb_le, existsb_exists. split.
+    + intros [[A B] [C [n [Hn En]]]]. apply in_seq in Hn. apply Z.eqb_eq in En.
+      split; [exact A|]. split; [exact B|]. split; [exact C|]. exists n. split; [lia | exact En].
+    + intros [A [B [C [n [Hn En]]]]]. split; [split; assumption|]. split; [exact C|].
+      exists n. split; [apply in_seq; lia | apply Z.eqb_eq; exact En].
+  - rewrite Z.eqb_eq. tauto.
+Qed.
+
 Definition c08_task_statement (cfg : config) (w : list itask) (o : osch) (t : nat) : Prop :=
   free_leaf w t = true ->
   exists s e release ld,
@@ -349,7 +377,9 @@ Definition c08_task_statement (cfg : config) (w : list itask) (o : osch) (t : na
             s = DAY * first + frac (obooked (before_task (o_rows o) t) r first) (cap cfg r first)
             /\ e = DAY * ld + frac (obooked (upto_task_day (o_rows o) t ld) r ld) (cap cfg r ld)
           else
-            s = DAY * first /\ e = DAY * ld + frac (obooked_t (o_rows o) r ld t) (cap cfg r ld)).
+            s = DAY * first /\ e = DAY * ld + frac (obooked_t (o_rows o) r ld t) (cap cfg r ld))
+    (* ... also when nothing was left to reserve *)
+    /\ (now cfg <= pbound cfg -> days = [] -> c08_norows cfg (o_rows o) r s e).
 
 Theorem c08_task_b_sound cfg w o t : c08_task_b cfg w o t = true -> c08_task_statement cfg w o t.
 Proof.
@@ -360,7 +390,7 @@ Proof.
   set (days := map row_day (rows_of o t)) in *.
   set (ld := match days with [] => day_of s | d0 :: ds => zmax_list d0 ds end) in *.
   exists s, e, rel, ld. cbv zeta. split; [reflexivity|]. split; [reflexivity|].
-  split; [apply c08_zmax_list_spec|]. split; [|split].
+  split; [apply c08_zmax_list_spec|]. split; [|split; [|split]].
   - unfold c08_lastday_is, ld. destruct days as [|d0 ds]; [left; auto | right; apply c08_zmax_list_spec].
   - intros Hb d Hd. rewrite Hb in Ht. rewrite forallb_forall in Ht. apply Z.eqb_eq. apply Ht.
     apply c08_zrange_in. lia.
@@ -369,14 +399,15 @@ Proof.
     split; [apply c08_zmin_list_spec|].
     destruct (balance cfg); apply andb_true_iff in He; destruct He as [A B];
       apply Z.eqb_eq in A; apply Z.eqb_eq in B; split; assumption.
+  - intros Hnow Hnil. apply Z.leb_le in Hnow. rewrite Hnow in He.
+    destruct days as [|d0 ds] eqn:Ed; [|discriminate]. apply c08_norows_b. exact He.
 Qed.
 
-(* ... and conversely: the oracle is not stronger than the statement *)
 Theorem c08_task_b_complete cfg w o t : c08_task_statement cfg w o t -> c08_task_b cfg w o t = true.
 Proof.
   unfold c08_task_b, c08_task_statement. intros H.
   destruct (free_leaf w t) eqn:Hfl; [|reflexivity]. cbn [negb].
-  destruct (H eq_refl) as [s [e [rel [ld [Hs [He [Hrel [Hld [Ht Hen]]]]]]]]]. rewrite Hs, He.
+  destruct (H eq_refl) as [s [e [rel [ld [Hs [He [Hrel [Hld [Ht [Hen Hno]]]]]]]]]]. rewrite Hs, He.
   set (days := map row_day (rows_of o t)) in *.
   assert (Erel : zmax_list (pbound cfg) (now cfg :: odflt (k_minstart (gett w t)) 0 :: ends_of o w (prereq_leaves w t)) = rel).
   { eapply c08_is_max_unique; [apply c08_zmax_list_spec | exact Hrel]. }
@@ -389,9 +420,40 @@ Proof.
   - destruct (balance cfg); [|reflexivity]. apply forallb_forall. intros d Hd. apply c08_zrange_in in Hd.
     apply Z.eqb_eq. apply Ht; [reflexivity | lia].
   - destruct (Z.leb_spec (now cfg) (pbound cfg)) as [Hn|Hn]; [|reflexivity].
-    destruct days as [|d0 ds] eqn:Ed; [reflexivity|].
+    destruct days as [|d0 ds] eqn:Ed; [apply c08_norows_b; apply Hno; [exact Hn | reflexivity]|].
     destruct (Hen Hn ltac:(discriminate)) as [first [Hf Henc]].
     assert (Ef : zmin_list d0 ds = first).
     { eapply c08_is_min_unique; [apply c08_zmin_list_spec | exact Hf]. }
     rewrite Ef. destruct (balance cfg); destruct Henc as [A B]; apply andb_true_iff; split; apply Z.eqb_eq; assumption.
+Qed.
+
+(* the model: a free leaf without rows *)
+Lemma c08_firstn_app_exact {A} (a b : list A) : firstn (length a) (a ++ b) = a.
+Proof. rewrite firstn_app, Nat.sub_diag, firstn_all. simpl. apply app_nil_r. Qed.
+
+Theorem c08_norows_holds cfg w st t d1 s e ext l :
+  c08_final cfg w st t d1 s e ext [] l -> now cfg <= pbound cfg ->
+  c08_norows cfg (model_rows st) (k_res (gett w t)) s e.
+Proof.
+  intros F Hnow.
+  destruct F as [Flg Fext Fl Fok Fed Frel Ffree Fst Fsd Fwait Frows Fsum Fnd Fle Fend].
+  set (r := k_res (gett w t)) in *.
+  unfold c08_norows. cbv zeta. rewrite Fsd.
+  split; [lia|]. split.
+  { destruct Fend as [[_ [Ee _]] | [x [rest [dl [A _]]]]]; [lia | discriminate]. }
+  destruct (balance cfg) eqn:Hb; cbn [used] in Ffree, Fst.
+  - simpl in Flg. destruct Fok as [Hpos _]. split.
+    + unfold model_rows. rewrite obooked_model.
+      assert (Hg : booked l r d1 <= booked (lg st) r d1).
+      { pose proof (used_app true ext l r d1 t) as Ha.
+        pose proof (used_nonneg true ext r d1 t
+                      (fun x Hx => Hpos x ltac:(rewrite Flg; apply in_or_app; left; exact Hx))) as Hn0.
+        rewrite Flg. unfold used in *. lia. }
+      assert (Hc0 : 0 < cap cfg r d1) by lia.
+      pose proof (frac_mono _ _ _ Hc0 Hg). lia.
+    + exists (length (map row_obs (rev l))).
+      rewrite (c08_model_rows_split st ext [] l Flg). split.
+      * rewrite app_length. lia.
+      * rewrite c08_firstn_app_exact, obooked_model. exact Fst.
+  - rewrite (c08_booked_t_foreign l _ _ t Fl), frac_zero in Fst. lia.
 Qed.
